@@ -449,7 +449,7 @@ class Components(Stream):
             objs = {}
             for i, k in enumerate(case['labs']):
                 if lobj[i] not in objs:           # one python object per object id; its shape = first position using it
-                    kw = mk_extra(i, lx[i])
+                    kw = mk_extra(lobj[i], lx[i])
                     kw['device_name'] = 'obj-%d' % lobj[i]      # survives copying: identifies the caller's object by value
                     b = mk_bdf(k)
                     if b is not None:
@@ -511,7 +511,7 @@ class Components(Stream):
                     return {'err': 'SHAPE:interface %s' % key}
                 if tag is not None:
                     fp = lobj_of(case).index(tag)
-                    want = mk_extra(fp, (case.get('lx') or ['m'] * len(labs))[fp])
+                    want = mk_extra(tag, (case.get('lx') or ['m'] * len(labs))[fp])
                     if (l.mac, l.vlan_range) != (want.get('mac'), want.get('vlan_range')):
                         return {'err': 'SHAPE:interface %s mac/vlan_range labels changed' % key}
                 elif l.mac is not None or l.vlan_range is not None:
@@ -983,18 +983,6 @@ class C18(Check):
         except Exception as e:
             out.append({'name': 'list_instances() equals the regenerated inst_sizes table', 'ok': False, 'detail': repr(e)})
         return out
-
-
-def _shared_label_witness():
-    st = Components()
-    case = {'name': 'nic1', 'sel': ['tm', 'SmartNIC', 'ConnectX-6'], 'nsid': None, 'ids': None, 'labs': [None, None],
-            'lobj': [0, 0], 'lx': ['m', 'm'], 'parent': None}
-    o = st.observe(case)
-    why = st.oracle(case, o)
-    return bool(why and 'label object' in why), {'case': case, 'observation': o, 'why': why}
-
-
-C18.refuted_witnesses = lambda self: [('C18_shared_label_refuted', _shared_label_witness)]
 
 
 if __name__ == '__main__':
